@@ -126,3 +126,25 @@ func c01RunRIB(t *testing.T, w int) {
 
 func TestVerifC01LocRIBV4(t *testing.T) { c01RunRIB(t, 32) }
 func TestVerifC01LocRIBV6(t *testing.T) { c01RunRIB(t, 128) }
+
+// TestVerifC01RegressionLocRIBGetLongerAbsent: the GetLonger defect as seen
+// through LocRIB (fixed: see known_findings.txt).
+func TestVerifC01RegressionLocRIBGetLongerAbsent(t *testing.T) {
+	for _, w := range []int{32, 128} {
+		var base kit.Bits
+		if w == 32 {
+			base = kit.V4(0x0a000000, 32)
+		} else {
+			base = kit.V6(0x20010db800000000, 0, 128)
+		}
+		q := base.WithLen(8).Canon()
+		lo := base.WithLen(9).Canon()
+		a := newC01RIB(w)
+		m := kit.NewPfxModel()
+		a.Add(lo, 0)
+		m.Add(lo, 0)
+		if msg := kit.CheckPfxTable(m, a, []kit.Bits{q, lo, base.WithLen(0).Canon()}); msg != "" {
+			t.Fatalf("w=%d: %s", w, msg)
+		}
+	}
+}
